@@ -150,7 +150,10 @@ def load_known() -> Dict[str, Any]:
 
 def finish(report: Report, explanation: str, trusted: List[str]) -> int:
     """write evidence, print findings, return the exit code"""
-    report.enforce_floors()
+    if not report.findings:
+        # a rule that reported a violation may have stopped early; floors guard only
+        # against rules that silently match nothing
+        report.enforce_floors()
     known = load_known().get('known', [])
     known_keys = {(k['property'], k['key']): k for k in known
                   if isinstance(k, dict)}
